@@ -305,7 +305,40 @@ def c08_units(tier):
               Unit("c08-clang", "c08.cpp", CLANG_O3, cases=3000, shards=8, wrapper=VG, timeout=3000)]
     return u
 
+
+# C08 cross-check (thorough tier): lackey trace equality for two secret sets on a sample of public programs
+def c08_tracediff(pid, tier, seed, work, units):
+    if tier != "thorough":
+        return [], None
+    import tracediff, subprocess
+    exe = tracediff.build(work, SHIPPED)
+    cdir = skv._mk(os.path.join(work, "trace-corpus"))
+    u = units[0]
+    env = dict(os.environ, **u.env); env["RC_PARAMS"] = "seed=%d max_success=40 max_size=60" % (seed * 1000 + 555)
+    subprocess.run(u.cmd("gen", "--corpus", cdir, "--corpus-n", "40", "--dumponly", "1"), env=env, stdout=subprocess.PIPE, stderr=subprocess.STDOUT, timeout=1200)
+    progs = sorted(os.listdir(cdir))[:32]
+    from concurrent.futures import ThreadPoolExecutor
+    def one(f):
+        w = skv._mk(os.path.join(work, "tr-" + f))
+        return f, tracediff.differs(exe, os.path.join(cdir, f), w)
+    viol = []; events = 0
+    with ThreadPoolExecutor(8) as ex:
+        for f, (msg, n) in ex.map(one, progs):
+            events += n
+            if msg and len(viol) < 3:
+                rp = runner.save_replay(pid, open(os.path.join(cdir, f)).read())
+                viol.append((rp, "lackey-trace-diff", msg))
+    return viol, {"lackey_trace_diff": dict(programs=len(progs), trace_events_compared=events,
+                                            rule="same public program, four secret sets (all 0x00, all 0xff, two pseudo-random), instruction and data address traces between markers around every library call must be identical")}
+
+def c08_trace_replay(path, work):
+    import tracediff
+    exe = tracediff.build(work, SHIPPED)
+    msg, n = tracediff.differs(exe, path, work)
+    return msg
+
 prop("C08",
+     extra=c08_tracediff, extra_replay=c08_trace_replay,
      units=c08_units,
      level="exploration",
      rule=("generated public-parameter programs (cipher, key length incl. in-between, Mantis rounds / mode, back end, op sequence: "
@@ -607,8 +640,8 @@ def run(pid, tier, seed, replay):
         return p["custom"](pid, tier, seed, replay)
     units = p["units"](tier)
     if replay:
-        return runner.replay_only(pid, units, replay)
-    return runner.run_units(pid, units, tier, seed, p["level"], p["rule"], p["assumptions"],
+        return runner.replay_only(pid, units, replay, extra_replay=p.get("extra_replay"))
+    return runner.run_units(pid, units, tier, seed, p["level"], p["rule"], p["assumptions"], extra=p.get("extra"),
                             known=known_for(pid), extra_cov=p.get("extra_cov"), post_cov=p.get("post_cov"), fuzz=p.get("fuzz"))
 
 
